@@ -280,17 +280,23 @@ class Shadow:
             (b, j), J = rng.choice(running)
             self.emit(f'unschedule {b} {j} {J["attempt"]} {J["inst"]} {ts} cancelled {d}', 'unschedule', replayable=True)
             J.update(state='Ready', attempt=None)
-        elif r < 0.67:
+        elif 0.64 <= r < 0.66:
             # cancellation: a sub-group first, later possibly an ancestor or the whole batch
             bs = [b for b, B in self.batches.items() if not B['deleted']]
             if bs:
                 b = rng.choice(bs)
                 B = self.batches[b]
                 g = rng.choice(list(B['groups']))
-                self.emit(f'cancel {b} {g}', 'cancel', replayable=True)
+                if B['cancelled'] and rng.random() < 0.6:
+                    # a sub-group was cancelled before: now one of its ancestors (often the whole batch)
+                    anc = [a for c in B['cancelled'] for a in self.ancestors(b, c) if a not in B['cancelled']]
+                    g = rng.choice(anc) if anc else 0
+                elif len(B['groups']) > 1 and rng.random() < 0.6:
+                    g = rng.choice([x for x in B['groups'] if x != 0])
+                self.emit(f'cancel {b} {g}', 'cancel', replayable=self.rng.random() < 0.3)
                 if B['groups'][g]['update'] is None or B['updates'][B['groups'][g]['update'] - 1]['committed']:
                     B['cancelled'].add(g)
-        elif r < 0.77:
+        elif 0.66 <= r < 0.77 or r < 0.10:
             # the canceller: cancelled Ready jobs are marked Cancelled; cancelled Running/Creating jobs are unscheduled
             c = [(k, J) for k, J in jobs if J['state'] == 'Ready' and self.visible(k[0], J) and self.job_cancelled(k[0], J)]
             if c:
@@ -308,7 +314,7 @@ class Shadow:
                     (b, j), J = rng.choice(c)
                     self.emit(f'unschedule {b} {j} {J["attempt"]} {J["inst"]} {ts} cancelled {d}', 'unschedule:cancelled', replayable=True)
                     J.update(state='Ready', attempt=None)
-        elif r < 0.86:
+        elif 0.77 <= r < 0.86:
             inst = self.pick_instance(states=('active', 'pending'))
             if inst is not None and len(self.instances) > 0:
                 self.emit(f'deactivate {inst} {rng.choice(["preempted", "deactivated", "activation_timeout"])} {ts} {d}', 'deactivate',
@@ -320,7 +326,7 @@ class Shadow:
                 if rng.random() < 0.3:
                     self.emit(f'markDeleted {inst}', 'markDeleted')
                     self.instances[inst]['state'] = 'deleted'
-        elif r < 0.90:
+        elif 0.86 <= r < 0.90 or r < 0.2:
             self.emit(rng.choice(['cleanupStaging', 'cleanupCancellable', 'compact']), 'background')
         elif r < 0.96 and self.sent:
             self.emit(rng.choice(self.sent), 'replay')           # an old message arrives (again)
@@ -467,3 +473,53 @@ def adversarial(rng: random.Random) -> Dict[str, Any]:
         s.emit(f'schedule {b} {j} {a} {inst}', 'schedule')
         s.emit(f'complete {b} {j} {a} {inst} Success {s.tick()} {s.tick()} completed 0', 'complete')
     return {'ops': s.ops, 'kind': 'adversarial', 'adv': kind}
+
+
+def submission(rng: random.Random) -> Dict[str, Any]:
+    """C39: a client submits and commits 1-2 updates (pool 'standard' jobs that fit the instances, nested groups, DAG parents, some
+    always_run); then a script for the actors of harness/batchdb/actors.py"""
+    s = Shadow(rng)
+    b = s.create_batch(user=1)
+    for _ in range(rng.choice([1, 2])):
+        s.new_instance(True)
+    for k in range(rng.choice([1, 1, 2])):
+        n_jobs = rng.randint(1, 5)
+        n_groups = rng.choice([0, 1, 2, 3])
+        u = s.open_update(b, n_jobs, n_groups)
+        s.insert_groups(b, u)
+        s.insert_jobs(b, u)
+        # pool 'standard' only, small jobs
+        fixed = []
+        for part in u['bunches']:
+            np_ = []
+            for t in part:
+                f = t.split(';')
+                f[6] = str(rng.choice([250, 500, 1000, 2000]))
+                f[7] = '0'
+                np_.append(';'.join(f))
+            fixed.append(np_)
+        u['bunches'] = fixed
+        while u['bunches']:
+            s.send_bunch(b, u)
+        s.commit(b, u)
+    groups = list(s.batches[b]['groups'])
+    script: List[str] = []
+    for _ in range(rng.randint(4, 16)):
+        r = rng.random()
+        if r < 0.35:
+            script.append('S')
+        elif r < 0.6:
+            script.append('W' + rng.choice(['Success', 'Success', 'Failed', 'Error']))
+        elif r < 0.68:
+            script.append(rng.choice(['R', 'U', 'O']))
+        elif r < 0.74:
+            script.append('D')
+        elif r < 0.82:
+            script.append('F')
+        else:
+            g = rng.choice(groups)
+            script.append(f'C{b} {g}')
+            if g != 0 and rng.random() < 0.5:
+                script.append('S')
+                script.append(f'C{b} {rng.choice([a for a in s.ancestors(b, g) if a != g] or [0])}')
+    return {'ops': s.ops, 'kind': 'actors', 'actors': script, 'aseed': rng.randint(0, 10 ** 6)}
